@@ -19,7 +19,7 @@ func init() {
 		Title:     "Formatting preserves the syntax tree",
 		Technique: "type-switch exhaustiveness and per-case field-coverage analysis of the printer (expr1, stmt, spec, decl and their helpers) against the node types and fields the parser constructs (derived from parser's composite literals and field stores)",
 		Explanation: "Decides for every tree the parser can produce the structural necessary conditions of 'printing loses nothing': (1) every Expr/Stmt/Spec/Decl node type of which package parser builds a value has a case in the printer switch for its category (otherwise the printer reaches its default arm); " +
-			"(2) in each case every field that carries syntax — child nodes, operator/keyword tokens (Op, Tok, Dir, Kind) and the XGo flags that change the surface syntax (NoParenEnd, Ellipsis, LhsHasParen, RhsHasParen, Static, Operator, IsClass, Shadow, …) — and that the parser actually sets for that node type is read by the code that prints the node (in the case body or in a helper method that receives the node, followed two levels deep); a field that is never read cannot survive formatting. (2b, print-operand-path) path-sensitively over go/cfg: an optional child (pointer- or interface-typed node field) that a case of any type switch over syntax nodes in package printer hands to a printer routine on one path is, on every path through that case, handed on or known nil by a nil test on that path (reviewed exceptions: c19OperandReviewed) — `else` printed only when there is no init statement is caught here and not by (2).",
+			"(2) in each case every field that carries syntax — child nodes, operator/keyword tokens (Op, Tok, Dir, Kind) and the XGo flags that change the surface syntax (NoParenEnd, Ellipsis, LhsHasParen, RhsHasParen, Static, Operator, IsClass, Shadow, …) — and that the parser actually sets for that node type is read by the code that prints the node (in the case body or in a helper method that receives the node, followed two levels deep); a field that is never read cannot survive formatting. (2a, print-order) the children of a node are first handed to the printing routines in the order the node declares them, which is their order in the source; (2b, print-operand-path) path-sensitively over go/cfg: an optional child (pointer- or interface-typed node field) that a case of any type switch over syntax nodes in package printer hands to a printer routine on one path is, on every path through that case, handed on or known nil by a nil test on that path (reviewed exceptions: c19OperandReviewed) — `else` printed only when there is no init statement is caught here and not by (2).",
 		NotCovered: "how a field is printed (spacing, parenthesisation — partly C22), comment placement, and re-parse equality of the output.",
 		Run:        runC19,
 		Controls: []Control{
@@ -30,6 +30,7 @@ func init() {
 			{Name: "binary-right-assoc", File: f, Old: "p.expr1(x.Y, prec+1, depth+1)", New: "p.expr1(x.Y, prec, depth+1)", Expect: "binary/right-operand"},
 			{Name: "prefix-from-printer-state", File: "printer/printer.go", Old: "\t\tp.output = append(p.output, tabwriter.Escape)\n\t}\n\n\tif debug {", New: "\t\tp.output = append(p.output, tabwriter.Escape)\n\t\tif p.lastTok == token.CSTRING {\n\t\t\tp.output = append(p.output, 'c')\n\t\t}\n\t}\n\n\tif debug {", Expect: "literal-prefix/printer.print"},
 			{Name: "else-printed-only-without-init", File: f, Old: "\t\tif s.Else != nil {\n", New: "\t\tif s.Else != nil && s.Init == nil {\n", Expect: "print-operand-path/printer.stmt:IfStmt.Else"},
+			{Name: "key-value-swapped", File: f, Old: "\t\tp.expr(x.Key)\n\t\tp.print(x.Colon, token.COLON, blank)\n\t\tp.expr(x.Value)\n", New: "\t\tp.expr(x.Value)\n\t\tp.print(x.Colon, token.COLON, blank)\n\t\tp.expr(x.Key)\n", Expect: "print-order/KeyValueExpr"},
 			{Name: "unary-op-ignored", File: f, Old: "\t\t\t// no parenthesis needed\n\t\t\tp.print(x.Op)\n", New: "\t\t\t// no parenthesis needed\n\t\t\tp.print(token.SUB)\n", Expect: "print-field/UnaryExpr.Op"},
 		},
 	})
@@ -116,6 +117,7 @@ func runC19(c *core.Check) {
 	cats := []struct{ iface, fn string }{{"Expr", "printer.expr1"}, {"Stmt", "printer.stmt"}, {"Spec", "printer.spec"}, {"Decl", "printer.decl"}}
 	c.Floor("print-case", 60)
 	c.Floor("print-field", 120)
+	c.Floor("print-order", 22)
 	for _, cat := range cats {
 		io := apk.Types.Scope().Lookup(cat.iface)
 		fd := prog.FuncDecl("./printer", cat.fn)
@@ -164,6 +166,7 @@ func runC19(c *core.Check) {
 				continue
 			}
 			checkPrintedFields(c, prog, ppk, xpk, node, nt, cc, info.Implicits[cc])
+			checkPrintOrder(c, ppk, nt, cc, info.Implicits[cc])
 		}
 	}
 }
@@ -448,4 +451,76 @@ func containsNode(root, n ast.Node) bool {
 		return !found
 	})
 	return found
+}
+
+// c19OrderReviewed: cases whose first mentions of two fields are not in declaration order for a reason other than
+// printing them out of order.
+var c19OrderReviewed = map[string]string{}
+
+// checkPrintOrder: the node's child fields (syntax nodes, node lists and token positions are declared in source order in
+// package ast) are first handed to a printing routine in declaration order.
+func checkPrintOrder(c *core.Check, ppk *packages.Package, nt *types.Named, cc *ast.CaseClause, caseVar types.Object) {
+	st, ok := nt.Underlying().(*types.Struct)
+	if !ok || caseVar == nil {
+		return
+	}
+	info := ppk.TypesInfo
+	idx := map[string]int{}
+	for i := 0; i < st.NumFields(); i++ {
+		f := st.Field(i)
+		if isASTNodeType(f.Type()) || isNodeSlice(f.Type()) {
+			idx[f.Name()] = i
+		}
+	}
+	var order []string
+	seen := map[string]bool{}
+	for _, s := range cc.Body {
+		ast.Inspect(s, func(n ast.Node) bool {
+			call, ok := n.(*ast.CallExpr)
+			if !ok {
+				return true
+			}
+			if fn, ok := calleeObj(info, call).(*types.Func); !ok || fn.Pkg() != ppk.Types {
+				return true
+			}
+			for _, a := range call.Args {
+				sel, ok := ast.Unparen(a).(*ast.SelectorExpr)
+				if !ok || identObj(info, sel.X) != caseVar {
+					continue
+				}
+				if _, tracked := idx[sel.Sel.Name]; tracked && !seen[sel.Sel.Name] {
+					seen[sel.Sel.Name] = true
+					order = append(order, sel.Sel.Name)
+				}
+			}
+			return true
+		})
+	}
+	if len(order) < 2 {
+		return
+	}
+	key := nt.Obj().Name()
+	okOrd, prev := true, -1
+	for _, f := range order {
+		if idx[f] < prev {
+			okOrd = false
+		}
+		prev = idx[f]
+	}
+	if why, rev := c19OrderReviewed[key]; rev {
+		if okOrd {
+			c.Bad("print-order", key, cc.Pos(), "listed as a reviewed exception but the case prints its children in declaration order now: remove the stale entry")
+		} else {
+			c.Note("print-order", key, cc.Pos(), "reviewed: "+why)
+		}
+		return
+	}
+	c.Decide(okOrd, "print-order", key, cc.Pos(), strings.Join(order, " → "), "the case for *ast."+key+" hands the children to the printing routines in the order "+strings.Join(order, ", ")+", but the node declares them (= they occur in the source) in a different order: two children are printed swapped")
+}
+
+func isNodeSlice(t types.Type) bool {
+	if sl, ok := t.Underlying().(*types.Slice); ok {
+		return isASTNodeType(sl.Elem())
+	}
+	return false
 }
